@@ -11,7 +11,7 @@ def run(c, a):
                    "lists from pools chosen by the declared parameter constraints (indices / sizes / steps -2.5..10 incl. fractions and infinity; "
                    "empty and non-empty collections, duplicates, nulls; list/tuple and map/object forms); the harness runs the real functions; TLC "
                    "compares each result with SRef (ResultIsRef, FailsOnlyOutsideDomain, FailsOutsideDomain). Non-trivial = decided by the reference and successful.")
-    c.assumptions = ["mixed argument types needing unification (except coalesce on primitives) and setproduct are outside the reference (UNDEF, not judged)",
+    c.assumptions = ["mixed argument types needing unification (except coalesce on primitives) and setproduct with tuple arguments are outside the reference (UNDEF, not judged)",
                      "attribute names / map keys are single characters"]
     c.build_harness()
     if a.replay:
@@ -27,7 +27,7 @@ def run(c, a):
         return
     ev_generic = run_std(c, "ref", only=set(FNS))
     jobs, outs = [], []
-    for fn in FNS[:-1]:
+    for fn in FNS:
         out = c.path("c13vec-%s.ndjson" % fn)
         jobs.append(("C13Gen", {"VFN": fn, "VTIER": c.tier, "VOUT": out}))
         outs.append(out)
